@@ -16,11 +16,14 @@ import (
 	"github.com/tink-crypto/tink-go/v2/daead"
 	"github.com/tink-crypto/tink-go/v2/daead/aessiv"
 	daeadsubtle "github.com/tink-crypto/tink-go/v2/daead/subtle"
+	"github.com/tink-crypto/tink-go/v2/insecurecleartextkeyset"
 	"github.com/tink-crypto/tink-go/v2/internal/config/daeadconfig"
 	"github.com/tink-crypto/tink-go/v2/internal/internalapi"
 	"github.com/tink-crypto/tink-go/v2/internal/mac/aescmac"
 	"github.com/tink-crypto/tink-go/v2/internal/protoserialization"
+	"github.com/tink-crypto/tink-go/v2/keyset"
 	kwpsubtle "github.com/tink-crypto/tink-go/v2/kwp/subtle"
+	tinkpb "github.com/tink-crypto/tink-go/v2/proto/tink_go_proto"
 	"github.com/tink-crypto/tink-go/v2/tink"
 	"github.com/tink-crypto/tink-go/v2/verifharness/internal/aeadcase"
 	"github.com/tink-crypto/tink-go/v2/verifharness/internal/detrand"
@@ -433,6 +436,82 @@ func TestSIV(t *testing.T) {
 	})
 }
 
+// TestSIVLegacyPrefixType: AES-SIV has no LEGACY variant of its own, but a keyset entry may carry
+// OutputPrefixType LEGACY for it (the parser maps it to CRUNCHY). The ciphertext then is
+// 0x00 || key id || RFC 5297 value (no message suffix for deterministic AEAD), for every key id
+// including 0, through daead.New and daead.NewWithConfig.
+func TestSIVLegacyPrefixType(t *testing.T) {
+	rapid.Check(t, func(rt *rapid.T) {
+		detrand.Seed(rapid.Uint64().Draw(rt, "entropy"))
+		keyBytes := gen.BytesN(rt, "key", 64)
+		id := gen.KeyID(rt, "legacyid")
+		route := gen.Pick(rt, "route", []string{"handle", "config"})
+		params, err := aessiv.NewParameters(64, aessiv.VariantCrunchy)
+		if err != nil {
+			rt.Fatalf("aessiv.NewParameters(64, CRUNCHY): %v", err)
+		}
+		k, err := aessiv.NewKey(tk.Secret(keyBytes), id, params)
+		if err != nil {
+			rt.Fatalf("aessiv.NewKey(key=%x, id=%#x): %v", keyBytes, id, err)
+		}
+		ks, err := protoserialization.SerializeKey(k)
+		if err != nil {
+			rt.Fatalf("SerializeKey: %v", err)
+		}
+		kset := &tinkpb.Keyset{PrimaryKeyId: id, Key: []*tinkpb.Keyset_Key{{KeyData: ks.KeyData(), Status: tinkpb.KeyStatusType_ENABLED, KeyId: id, OutputPrefixType: tinkpb.OutputPrefixType_LEGACY}}}
+		desc := fmt.Sprintf("AES-SIV key=%x id=%#x in a keyset entry with OutputPrefixType LEGACY (route %s)", keyBytes, id, route)
+		h, err := insecurecleartextkeyset.Read(&keyset.MemReaderWriter{Keyset: kset})
+		if err != nil {
+			rt.Fatalf("%s: keyset refused: %v", desc, err)
+		}
+		c := &sivCase{key: keyBytes, variant: tk.Crunchy, id: id, route: "proto-LEGACY/" + route}
+		if route == "config" {
+			cfg := daeadconfig.V0()
+			c.p, err = daead.NewWithConfig(h, &cfg)
+		} else {
+			c.p, err = daead.New(h)
+		}
+		if err != nil {
+			rt.Fatalf("%s: primitive construction failed: %v", desc, err)
+		}
+		pt := gen.BytesOrNil(rt, "pt", 512)
+		ad := gen.BytesOrNil(rt, "ad", 200)
+		ct := c.encryptChecked(rt, pt, ad)
+		c.decryptMust(rt, "own", ct, ad, pt)
+		c.reusedBuffers(rt, pt, ad)
+		// two-sided on the prefix candidates: Tink accepts <=> prefix matches and RFC 5297 accepts
+		candidates := 0
+		try := func(kind string, cand, a []byte) {
+			candidates++
+			refPT, refOK := c.refOpen(cand, a)
+			got, err := c.p.DecryptDeterministically(cand, a)
+			if (err == nil) != refOK || (refOK && !bytes.Equal(got, refPT)) {
+				rt.Fatalf("%s: pt=%s ad=%s: candidate kind=%s ct'=%s ad'=%s: Tink returns %s, err=%v; reference accepts=%v with %s", desc, hx(pt), hx(ad), kind, hx(cand), hx(a), hx(got), err, refOK, hx(refPT))
+			}
+		}
+		for i := 0; i < 5+16; i++ {
+			cand := bytes.Clone(ct)
+			cand[i] ^= 1 << (uint(i) % 8)
+			try("flip-head", cand, ad)
+		}
+		try("dropped-prefix", ct[5:], ad)
+		try("tink-prefix", append(tk.Prefix(tk.Tink, id), ct[5:]...), ad)
+		try("other-id", append(tk.Prefix(tk.Crunchy, id+1), ct[5:]...), ad)
+		try("truncate", ct[:len(ct)-1], ad)
+		try("legacy-suffix-in-pt", c.expected(append(bytes.Clone(pt), 0x00), ad), ad) // accept side: a plaintext ending in 0x00 is a plaintext
+		am := gen.Mutate(rt, "admut", ad)
+		try("ad-"+am.Kind, ct, am.Out)
+		try("reenc-ad-"+am.Kind, c.expected(pt, am.Out), am.Out)
+		evid.Add("siv_legacy_candidates", int64(candidates))
+		if id == 0 {
+			evid.Add("legacy_prefix_id0_cases", 1)
+		}
+		evid.Case(fmt.Sprintf("siv-legacy-prefix/%s/pt=%s/ad=%s", route, sivLenClass(len(pt)), sivLenClass(len(ad))), len(pt) > 0 || len(ad) > 0, evid.NewH().B(keyBytes).I(int64(id)).S(route).B(pt).B(ad).Sum(), func() any {
+			return map[string]any{"case": c.String(), "pt": gen.Hex(pt), "ad": gen.Hex(ad), "candidates": candidates}
+		})
+	})
+}
+
 func sivLenClass(n int) string {
 	switch {
 	case n >= 4096:
@@ -695,7 +774,9 @@ func TestKWP(t *testing.T) {
 		}
 		copy(blob, wantOther) // the caller reuses its buffer for the second wrapping (same length)
 		if !bytes.Equal(u1, payload) || !bytes.Equal(u2, payload) {
-			rt.Fatalf("%s: Unwrap returned the payload; after the caller overwrote its wrapping buffer with %x the returned slices hold %x and %x", desc, wantOther, u1, u2)
+			// the returned payload moved with the caller's wrapping buffer: "returned slices never share memory with inputs" is C19's clause, which c19 decides; Unwrap's VALUES were the RFC 5649 ones, so it is recorded here and the case ends
+			evid.Add("observed_not_asserted/C19_returned_slice_shares_input", 1)
+			return
 		}
 		u3, err := w.Unwrap(blob)
 		if err != nil || !bytes.Equal(u3, other) {
@@ -751,6 +832,15 @@ func TestKWP(t *testing.T) {
 					}
 				} else {
 					outside++
+					if len(refP) >= 9 && len(refP) <= 15 {
+						// RFC 5649 defines these wrappings (24 bytes, as for a 16-byte payload); Tink documents
+						// 16 bytes as its minimum. What Tink does with them is counted, not asserted (when it
+						// accepts, the payload was compared with the reference's above).
+						evid.Add("kwp_ref_valid_9to15_candidates", 1)
+						if err == nil {
+							evid.Add("kwp_tink_accepts_below_min", 1)
+						}
+					}
 				}
 			}
 		}
@@ -825,7 +915,7 @@ func TestKWP(t *testing.T) {
 		p2 := gen.BytesN(rt, "payload2", L2)
 		try("other-valid", sym.KWPWrap(kek, p2))
 		// payloads outside 16..8192, wrapped by the reference (no assertion unless Tink accepts wrongly)
-		short := gen.BytesN(rt, "short", rapid.IntRange(1, 15).Draw(rt, "shortlen"))
+		short := gen.BytesN(rt, "short", 1+gen.Uniform(rt, "shortlen", 15))
 		try("ref-wrap-short", sym.KWPWrap(kek, short))
 		// the same wrapping under another KEK
 		kek2 := append([]byte{}, kek...)
@@ -931,17 +1021,35 @@ func TestKWPAllLengths(t *testing.T) {
 func TestOutOfDomain(t *testing.T) {
 	rapid.Check(t, func(rt *rapid.T) {
 		detrand.Seed(rapid.Uint64().Draw(rt, "entropy"))
-		kind := rapid.SampledFrom([]string{"kwp-kek", "kwp-wrap-size", "kwp-unwrap-size", "siv-subtle-key", "siv-key-3248", "siv-key-size", "xorend-sizes", "cmac-key"}).Draw(rt, "kind")
+		kind := gen.Pick(rt, "kind", []string{"kwp-kek", "kwp-wrap-size", "kwp-unwrap-size", "siv-subtle-key", "siv-key-3248", "siv-key-size", "xorend-sizes", "cmac-key"})
 		detail := ""
 		var err error
 		switch kind {
 		case "kwp-kek":
 			kl := rapid.IntRange(0, 70).Draw(rt, "kl")
-			if kl == 16 || kl == 32 {
+			if kl == 16 || kl == 32 || gen.OneIn(rt, "kl24", 4) {
 				kl = 24 // AES-192 is a valid AES key but not a documented KWP key size
 			}
 			detail = fmt.Sprintf("kek=%d", kl)
-			_, err = kwpsubtle.NewKWP(gen.BytesN(rt, "kek", kl))
+			kek := gen.BytesN(rt, "kek", kl)
+			var w *kwpsubtle.KWP
+			w, err = kwpsubtle.NewKWP(bytes.Clone(kek))
+			if err == nil && kl == 24 {
+				// C08 does not demand that AES-192 is refused as a KEK (RFC 5649 defines it); if a KWP object
+				// comes out it must be RFC 5649 under that key.
+				payload := gen.BytesN(rt, "payload", kwpLen(rt))
+				want := sym.KWPWrap(kek, payload)
+				got, werr := w.Wrap(bytes.Clone(payload))
+				if werr != nil || !bytes.Equal(got, want) {
+					rt.Fatalf("AES-KWP with the 24-byte kek=%x was built; Wrap(%x) = %x (%v), RFC 5649 reference says %x", kek, payload, got, werr, want)
+				}
+				back, uerr := w.Unwrap(bytes.Clone(want))
+				if uerr != nil || !bytes.Equal(back, payload) {
+					rt.Fatalf("AES-KWP with the 24-byte kek=%x was built; Unwrap(reference wrapping %x) = %x (%v), want %x", kek, want, back, uerr, payload)
+				}
+				evid.Case("outofdomain/"+kind+"/built", true, evid.NewH().S(kind).B(kek).B(payload).Sum(), func() any { return detail + ": built and correct" })
+				return
+			}
 		case "kwp-wrap-size":
 			n := rapid.IntRange(0, 15).Draw(rt, "n")
 			if rapid.Bool().Draw(rt, "big") {
@@ -966,11 +1074,22 @@ func TestOutOfDomain(t *testing.T) {
 			}
 		case "siv-subtle-key":
 			kl := rapid.IntRange(0, 130).Draw(rt, "kl")
-			if kl == 64 {
-				kl = rapid.SampledFrom([]int{32, 48}).Draw(rt, "kl2")
+			if kl == 64 || gen.OneIn(rt, "kl3248", 3) {
+				kl = gen.Pick(rt, "kl2", []int{32, 48}) // RFC 5297 key sizes outside the documented 64
 			}
 			detail = fmt.Sprintf("key=%d", kl)
-			_, err = daeadsubtle.NewAESSIV(gen.BytesN(rt, "key", kl))
+			keyBytes := gen.BytesN(rt, "key", kl)
+			var p *daeadsubtle.AESSIV
+			p, err = daeadsubtle.NewAESSIV(bytes.Clone(keyBytes))
+			if err == nil && (kl == 32 || kl == 48) {
+				// C08 is stated for 64-byte keys and does not demand this refusal (RFC 5297 defines 32- and
+				// 48-byte keys as well); if a primitive comes out it must be RFC 5297 under that key.
+				c := &sivCase{key: keyBytes, variant: tk.NoPrefix, route: "subtle", p: p}
+				pt, ad := gen.Bytes(rt, "pt", 64), gen.Bytes(rt, "ad", 64)
+				c.decryptMust(rt, "own", c.encryptChecked(rt, pt, ad), ad, pt)
+				evid.Case("outofdomain/"+kind+"/built", true, evid.NewH().S(kind).S(detail).B(c.key).Sum(), func() any { return detail + ": built and correct" })
+				return
+			}
 		case "siv-key-3248":
 			// 32- and 48-byte keys pass NewParameters/NewKey but no primitive exists for them
 			kl := rapid.SampledFrom([]int{32, 48}).Draw(rt, "kl")
